@@ -30,7 +30,22 @@ class Finding:
         self.detail = detail
 
 
-def analyse(prog, func, string_param_reader=None):
+def returns_unterminated(prog, t, _stack=()):
+    """the file-local function t may return a buffer that one of its writers filled without a terminator (and no
+    terminating store reached the return).  Such a return is not a use as a string: the obligation moves to the
+    callers, where the call then counts as the non-terminating writer of the variable that receives the result."""
+    memo = prog.__dict__.setdefault('_unterm_ret', {})
+    if t.key in memo:
+        return memo[t.key]
+    if t.key in _stack or t.cfg_error or not t.internal:
+        return False
+    hits = []
+    analyse(prog, t, _ret_sink=hits, _stack=_stack + (t.key,))
+    memo[t.key] = bool(hits)
+    return memo[t.key]
+
+
+def analyse(prog, func, string_param_reader=None, _ret_sink=None, _stack=()):
     """string_param_reader(callee Function, index) -> bool: does the program function read its
     pointer parameter as a string?  (default: const char* parameters do)"""
     out = []
@@ -38,6 +53,13 @@ def analyse(prog, func, string_param_reader=None):
     sites = [0]
     if func.cfg_error:
         return out, 0
+
+    def unterm_helper_call(x):
+        x = strip(x) if x is not None else None
+        if x is None or x.k != 'CallExpr' or not x.get('callee'):
+            return False
+        t = prog.func(x.get('callee'), func.tu)
+        return t is not None and t.internal and t is not func and returns_unterminated(prog, t, _stack)
 
     def base_ent(a):
         s = strip(a)
@@ -187,12 +209,28 @@ def analyse(prog, func, string_param_reader=None):
             if l.k == 'DeclRefExpr':
                 ent = ent_of(l)
                 if ent is not None:
-                    return frozenset(f for f in st if f[1] != ent)
+                    new = frozenset(f for f in st if f[1] != ent)
+                    if unterm_helper_call(e.ch[1]):
+                        sites[0] += 1
+                        new = new | {('unterm', ent, strip(e.ch[1]).id)}
+                    return new
+        if e.k == 'DeclStmt':
+            new = st
+            for d in e['decls']:
+                if d.get('init', -1) != -1 and unterm_helper_call(func.nodes[d['init']]):
+                    sites[0] += 1
+                    new = frozenset(f for f in new if f[1] != ('v', d['id'])) | {('unterm', ('v', d['id']), strip(func.nodes[d['init']]).id)}
+            return new
         if e.k == 'ReturnStmt' and e.ch:
             ent = ent_of(e.ch[0])
             if ent is not None and (e.ch[0].get('ct') or '').rstrip().endswith('*'):
                 for f in st:
                     if f[1] == ent:
+                        if func.internal and (_ret_sink is not None or returns_unterminated(prog, func, _stack)):
+                            # a file-local helper handing its buffer back: judged at the callers
+                            if _ret_sink is not None:
+                                _ret_sink.append(f[2])
+                            continue
                         report(e, ent, f[2])
         return st
 
